@@ -18,7 +18,7 @@ from hypothesis import strategies as st
 
 from vf.core import Discard, Violation, derive_seed, require
 from vf.families import householder_Q
-from vf.refmodels import breakpoints, compact_B_from_mats, gcp_predicate, model_value, ref_cauchy_point
+from vf.refmodels import breakpoints, char_len, compact_B_from_mats, gcp_predicate, model_value, ref_cauchy_point
 from vf.specs import grid, loggrid, sgrid, vec
 
 ID = "C08"
@@ -66,6 +66,13 @@ def check_gcp(x, g, lb, ub, mats, xc, c, stats=None, tag="syn"):
     require(bool(np.all(xc >= lb) and np.all(xc <= ub)), "feasible", f"xc={xc.tolist()} lb={lb.tolist()} ub={ub.tolist()}")
     require(bool(np.all(xc[tb == 0] == x[tb == 0]) and np.all(xc[g == 0] == x[g == 0])), "stationary-variables-stay",
             "a variable with zero breakpoint or zero gradient moved")
+    # resolution floor (runs intercepted with gtol=0 end there): when the whole projected-gradient step is worth less
+    # than ~10^4 ulps of x every model quantity below is rounding noise; only the exact clauses above are judged
+    pg_now = float(np.max(np.abs(np.clip(x - g, lb, ub) - x)))
+    if pg_now / max(float(mats.theta), 1e-300) <= 1e4 * 2.2e-16 * max(float(np.max(np.abs(x))), 1e-300):
+        if stats is not None:
+            stats.bump("at-resolution-floor(only-exact-clauses)")
+        return 0.0, 0.0
     m_xc = model_value(x, g, B, xc)
     z = xc - x
     gn2 = float(g @ g)
@@ -73,11 +80,12 @@ def check_gcp(x, g, lb, ub, mats, xc, c, stats=None, tag="syn"):
     mtol = 1e-9 * (abs(float(g @ z)) + 0.5 * Bn * float(z @ z)) + 1e-300
     require(m_xc <= mtol, "model-not-increased", f"m(xc)={m_xc:.3e} > m(x)=0")
     xref, tref = ref_cauchy_point(x, g, lb, ub, B)
-    xs = 1.0 + np.maximum(np.abs(xref), np.abs(x))
+    L0 = char_len(x, g, lb, ub, float(mats.theta), xref - x)
+    xs = L0 + np.maximum(np.abs(xref), np.abs(x))
     dev = float(np.max(np.abs(xc - xref) / xs))
     agree = dev <= 1e-7
     if not agree:
-        ok, why, info = gcp_predicate(x, g, lb, ub, B, xc)
+        ok, why, info = gcp_predicate(x, g, lb, ub, B, xc, L0=L0)
         if not ok:
             raise Violation(
                 "first-local-minimiser",
@@ -136,7 +144,7 @@ def run_case(spec, stats=None):
         tb = breakpoints(x, g, lb, ub)
         nt, outward, crossed = nontrivial(x, g, lb, ub, tb, tref, npairs)
         stats.case(spec, nt, [f"pairs={min(npairs, 3)}{'+' if npairs > 3 else ''}", f"outward={min(int(outward.sum()), 2)}{'+' if outward.sum() > 2 else ''}",
-                              f"crossed={min(crossed, 3)}{'+' if crossed > 3 else ''}", f"src={spec.get('src', 'hyp')}", f"inert={bool(spec.get('inert'))}"])
+                              f"crossed={min(crossed, 3)}{'+' if crossed > 3 else ''}", f"src={spec.get('src', 'hyp')}", f"inert={bool(spec.get('inert'))}", f"units={'1' if not spec.get('units') else 'tiny' if spec['units'] < 0 else 'huge'}"])
         stats.maxi("max_rel_dev_from_reference", dev if dev <= 1e-7 else 0.0)
 
 
@@ -221,7 +229,20 @@ def case(draw):
                 dist = (x[j] - lba[j]) if g[j] > 0 else (uba[j] - x[j])
                 if np.isfinite(dist) and dist > 0 and draw(st.booleans()):
                     g[j] = float(np.sign(g[j]) * dist / tb[i])
-    return {"n": n, "maxcor": maxcor, "S": S, "Y": Y, "x": x, "g": g, "lb": lb, "ub": ub, "iter": draw(st.sampled_from([0, 1, 5])), "src": "hyp", "inert": list(inert)}
+    out = {"n": n, "maxcor": maxcor, "S": S, "Y": Y, "x": x, "g": g, "lb": lb, "ub": ub, "iter": draw(st.sampled_from([0, 1, 5])), "src": "hyp", "inert": list(inert)}
+    ku = draw(st.sampled_from([0, 0, 0, -9, -6, -3, 3, 6]))
+    if ku:
+        # the same instance in other units: lengths * xs, gradients * fs/xs
+        xs_ = 10.0 ** ku
+        gs_ = 10.0 ** draw(st.sampled_from([-6, -3, 0, 3, 6])) / xs_
+        out["x"] = [v * xs_ for v in x]
+        out["lb"] = [None if v is None else v * xs_ for v in lb]
+        out["ub"] = [None if v is None else v * xs_ for v in ub]
+        out["S"] = [[v * xs_ for v in s_] for s_ in S]
+        out["g"] = [v * gs_ for v in g]
+        out["Y"] = [[v * gs_ for v in y_] for y_ in Y]
+        out["units"] = ku
+    return out
 
 
 # ----------------------------------------------------------------------------
@@ -324,8 +345,8 @@ def intercepted_body(pspec, stats):
 def run_spec(draw):
     from vf.specs import CONVEX_FAMILIES, problem_spec
 
-    p = draw(problem_spec(families=CONVEX_FAMILIES, n_max=8, kappa_max_exp=3.0))
-    cfg = {"maxcor": draw(st.integers(1, 8)), "maxiter": draw(st.integers(1, 25)), "maxfun": 200, "maxls": 20, "ftol": 0.0, "gtol": 1e-8}
+    p = draw(problem_spec(families=CONVEX_FAMILIES, n_max=8, kappa_max_exp=3.0, units=True))
+    cfg = {"maxcor": draw(st.integers(1, 8)), "maxiter": draw(st.integers(1, 25)), "maxfun": 200, "maxls": 20, "ftol": 0.0, "gtol": 0.0}
     return {"problem": p, "cfg": cfg}
 
 
